@@ -94,10 +94,17 @@ def run():
 
     def one(c):
         res, err = run_case(binary, c, real=bool(c.get("real")))
+        if err == "timeout":
+            # a start-up that takes more than a minute (normal: 60 ms) is tried once more before it counts
+            res, err = run_case(binary, c, real=bool(c.get("real")))
         return c, res, err
     results = vlib.parallel_map(one, cases + real_cases + perm_cases)
     recs = []
     for c, res, err in results:
+        if res is None and err == "timeout":
+            chk.violation("the runtime did not start within 60 s (twice) for configuration %s" % json.dumps(c),
+                          dict(case=c, probe="timeout"))
+            continue
         if res is None:
             raise vlib.ModelFailure("probe failed for %s: %s" % (c, err))
         rejected = res.get("nworkers", 0) == 0
